@@ -12,6 +12,7 @@ from black_it.search_space import SearchSpace
 from harness.common import Case
 from symx.core import Sym, lift
 from symx.npx import NPX, patched
+from symx.core import reraise_if_harness  # noqa: E402
 
 LEVEL = "other"
 FUNCTIONS = ["black_it.samplers.base:BaseSampler.sample", "black_it.samplers.base:BaseSampler.find_and_get_duplicates"]
@@ -134,6 +135,7 @@ def case(dims, B, H, P, fixed_hist=None):
             with contextlib.redirect_stdout(io.StringIO()):
                 out = s.sample(space, np.array(hist, dtype=float).reshape(H, dims), np.zeros(H))
         except Exception as e:  # noqa: BLE001
+            reraise_if_harness(e)
             return True, f"sample raised {type(e).__name__}: {e} (history={hist}, draws={pts})"
         it2 = iter(pts)
         rb, first, rsizes, touched, passes, still = reference(hist, lambda: next(it2), B, P, lambda a, b: list(a) == list(b))
